@@ -2,7 +2,10 @@ module verif
 
 go 1.25.0
 
-require github.com/pdfcpu/pdfcpu v0.0.0
+require (
+	github.com/pdfcpu/pdfcpu v0.0.0
+	golang.org/x/text v0.40.0
+)
 
 require (
 	github.com/clipperhouse/uax29/v2 v2.7.0 // indirect
@@ -11,7 +14,6 @@ require (
 	go.yaml.in/yaml/v3 v3.0.5 // indirect
 	golang.org/x/crypto v0.54.0 // indirect
 	golang.org/x/image v0.44.0 // indirect
-	golang.org/x/text v0.40.0 // indirect
 )
 
 replace github.com/pdfcpu/pdfcpu => /repo
